@@ -4,6 +4,7 @@ import (
 	"bufio"
 	"bytes"
 	"io"
+	"unicode/utf8"
 )
 
 const (
@@ -30,6 +31,10 @@ func (s *scanner) read() rune {
 	ch, _, err := s.r.ReadRune()
 	if err != nil {
 		return eof
+	}
+	if ch == eof {
+		// a NUL character in the text is not the end of the input
+		ch = utf8.RuneError
 	}
 	if ch == '\n' {
 		s.pos.Lines = append(s.pos.Lines, s.pos.Char)
